@@ -495,3 +495,636 @@ def round_trip(m, ext, tmpdir, n, build_code=True):
 def short(x, n=300):
     s = repr(x)
     return s if len(s) <= n else s[:n] + '…'
+
+
+# ------------------------------------------------------------------------------------------ graph walker
+
+CLS_CELL = 'xlcalculator.xltypes.XLCell'
+CLS_RANGE = 'xlcalculator.xltypes.XLRange'
+SAFE_DEPTH = 64      # the recursion allowance handed to the Lean model (real threshold: 100-140 levels)
+MISSING = object()
+
+
+def qualname(cls):
+    return f'{cls.__module__}.{cls.__qualname__}'
+
+
+def s_tok(s):
+    return 'S' + '.'.join(str(ord(c)) for c in s)
+
+
+def kind_of(x):
+    """How the walker (and jsonpickle) sees a live object."""
+    from xlcalculator.xlfunctions import func_xltypes as ft
+    if x is None or type(x) in (bool, int, float, str):
+        return 'prim'
+    if isinstance(x, ft.Array) or type(x).__module__.split('.')[0] in ('numpy', 'pandas'):
+        return 'lib'
+    if isinstance(x, (datetime.datetime, uuid.UUID)):
+        return 'lib'
+    if isinstance(x, ft.ExcelType):
+        return 'slots'
+    if isinstance(x, BaseException):
+        return 'reduce'
+    if isinstance(x, type):
+        return 'cls'
+    if type(x) is list:
+        return 'list'
+    if type(x) is tuple:
+        return 'tuple'
+    if type(x) in (set, frozenset):
+        return 'set'
+    if type(x) is dict:
+        return 'dict'
+    if hasattr(x, '__dict__'):
+        return 'obj'
+    raise TypeError(f'walker: unsupported object {type(x)!r}')
+
+
+def graph_wire(m):
+    """Prefix form of the object graph of the model's four dicts, in the order jsonpickle walks them;
+    a shared object is written at its first occurrence, later occurrences are `alias <path>`."""
+    seen = {}
+    out = []
+
+    def prim(x):
+        if x is None:
+            out.append('N')
+        elif type(x) is bool:
+            out.append('B1' if x else 'B0')
+        elif type(x) is int:
+            out.append(f'I{x}')
+        elif type(x) is float:
+            if math.isnan(x):
+                out.append('Fn')
+            elif math.isinf(x):
+                out.append('Fp' if x > 0 else 'Fm')
+            elif x == 0 and math.copysign(1.0, x) < 0:
+                out.append('Fz')
+            else:
+                out.append('F' + common.w_frac(common.frac_of(x)))
+        else:
+            out.append(s_tok(x))
+
+    def pairs(items, path):
+        for k, v in items:
+            if not isinstance(k, str):
+                raise TypeError(f'walker: non-string key {k!r}')
+            out.append(s_tok(k))
+            walk(v, path + [k])
+
+    def walk(x, path):
+        k = kind_of(x)
+        if k == 'prim':
+            prim(x)
+            return
+        if k == 'lib':
+            if isinstance(x, uuid.UUID):
+                payload = x.hex
+            else:
+                payload = valkey(x)
+            out.extend(['Y', s_tok(qualname(type(x))), s_tok(payload)])
+            return
+        if k == 'cls':
+            out.extend(['C', s_tok(qualname(x))])
+            return
+        if id(x) in seen:
+            h = seen[id(x)]
+            out.append(f'A{len(h)}')
+            out.extend(s_tok(p) for p in h)
+            return
+        seen[id(x)] = path
+        if k in ('list', 'tuple', 'set'):
+            items = list(x) if k != 'set' else sorted(x, key=repr)
+            out.append({'list': 'L', 'tuple': 'U', 'set': 'E'}[k] + str(len(items)))
+            for i, y in enumerate(items):
+                walk(y, path + [str(i)])
+        elif k == 'dict':
+            out.append(f'D{len(x)}')
+            pairs(x.items(), path)
+        elif k == 'slots':
+            args = [getattr(x, s) for s in ([type(x).__slots__] if isinstance(type(x).__slots__, str)
+                                            else _all_slots(type(x)))]
+            out.extend([f'X{len(args)}', s_tok(qualname(type(x)))])
+            for i, y in enumerate(args):
+                walk(y, path + [_all_slots(type(x))[i]])
+        elif k == 'reduce':
+            st = dict(vars(x))
+            out.extend([f'R{len(x.args)}.{len(st)}', s_tok(qualname(type(x)))])
+            for i, y in enumerate(x.args):
+                walk(y, path + ['args', str(i)])
+            pairs(st.items(), path)
+        else:
+            d = vars(x)
+            out.extend([f'O{len(d)}', s_tok(qualname(type(x)))])
+            pairs(d.items(), path)
+
+    sections = [('cells', m.cells), ('defined_names', m.defined_names), ('formulae', m.formulae),
+                ('ranges', m.ranges)]
+    out.append('D4')
+    for name, sec in sections:
+        out.append(s_tok(name))
+        walk(sec, [name])
+    return ' '.join(out)
+
+
+def _all_slots(cls):
+    names = []
+    for c in reversed(cls.__mro__):
+        s = c.__dict__.get('__slots__', ())
+        for n in ([s] if isinstance(s, str) else s):
+            if n not in names and n not in ('__weakref__', '__dict__'):
+                names.append(n)
+    return names
+
+
+def opt_val(d, name):
+    v = d.get(name, MISSING)
+    return '?' if v is MISSING else valkey(v)
+
+
+def matrix_wire(v):
+    if type(v) is not list:
+        return '?'
+    rows = []
+    for r in v:
+        if type(r) is not list or not all(type(c) is str for c in r):
+            return '?'
+        rows.append('+'.join(common.textWire(c) if hasattr(common, 'textWire') else '.'.join(str(ord(ch)) for ch in c)
+                             for c in r))
+    return '[' + '/'.join(rows) + ']'
+
+
+def dotted(s):
+    return '.'.join(str(ord(c)) for c in s)
+
+
+def is_obj(x):
+    try:
+        return kind_of(x) == 'obj'
+    except TypeError:
+        return False
+
+
+def items_of(d):
+    return list(d.items()) if type(d) is dict else []
+
+
+def obs_wire(m):
+    """The property's observable of a live model in the text form the Lean driver prints (`obsWire`)."""
+    cells = []
+    for k, c in items_of(m.cells):
+        if not is_obj(c):
+            cells.append('~'.join([dotted(k), '-', '?', '?', '!']))
+            continue
+        d = vars(c)
+        kind = 'c' if qualname(type(c)) == CLS_CELL else '?' + type(c).__qualname__
+        f = d.get('formula', MISSING)
+        ftext = opt_val(vars(f), 'formula') if (f is not MISSING and is_obj(f)) else '!'
+        cells.append('~'.join([dotted(k), kind, opt_val(d, 'address'), opt_val(d, 'value'), ftext]))
+    formulae = []
+    for k, f in items_of(m.formulae):
+        formulae.append(dotted(k) + '~' + (opt_val(vars(f), 'formula') if is_obj(f) else '?'))
+    names = []
+    for k, dn in items_of(m.defined_names):
+        if is_obj(dn) and qualname(type(dn)) == CLS_CELL:
+            names.append('~'.join([dotted(k), 'c', opt_val(vars(dn), 'address')]))
+        elif is_obj(dn) and qualname(type(dn)) == CLS_RANGE:
+            names.append('~'.join([dotted(k), 'r', opt_val(vars(dn), 'address_str'),
+                                   matrix_wire(vars(dn).get('cells'))]))
+        else:
+            names.append(dotted(k) + '~?')
+    ranges = []
+    for k, r in items_of(m.ranges):
+        if is_obj(r) and qualname(type(r)) == CLS_RANGE:
+            ranges.append('~'.join([dotted(k), opt_val(vars(r), 'address_str'), matrix_wire(vars(r).get('cells'))]))
+        else:
+            ranges.append(dotted(k) + '~?')
+    return '|'.join([';'.join(cells), ';'.join(formulae), ';'.join(names), ';'.join(ranges)])
+
+
+# ------------------------------------------------------------------------------------------ the run
+
+CODEC_NAMES = [
+    'm.json', 'm.gz', 'm.GZ', 'm.gzip', 'm.GZIP', 'm.Gz', 'm.gZiP', 'm.gz.json', 'm.json.gz', '.gz', '..gz',
+    'a..gz', 'm.gz ', 'm.tar.gz', 'mgz', 'm.gzz', 'm.zip', 'M.JSON', 'model', 'dir.gz/m', 'dir.gz/m.json',
+    'dir.d/.gz', 'dir.d/..gzip', 'dir.d/x.gzip', 'ünï cödé.GZ', 'a b.gz', 'm.gz.', 'm..gzip', '.hidden.gz',
+    'm.g z', 'm.GzIp', 'dir.gz/.hidden', 'm.json.GZIP', 'm.gzip.bak', '...', 'm.', 'm.Gzi', 'dir.GZ/sub.x/m.jsn.Gz',
+    '日本.gzip', 'm.ɡz',
+]
+
+
+def deep_specs():
+    """Formulas nested far beyond / well within the encoder's recursion allowance (finding D1201)."""
+    out = []
+    for i, (f, tag) in enumerate([
+            ('=' + '+'.join(['A1'] * 220), 'chain220'),
+            ('=' + 'ABS(' * 130 + 'A1' + ')' * 130, 'nest130'),
+            ('=' + '&'.join(['A2'] * 180), 'concat180'),
+            ('=' + '+'.join(['A1'] * 30), 'chain30'),
+            ('=' + 'ABS(' * 15 + 'A1' + ')' * 15, 'nest15')]):
+        out.append({'id': f'deep-{tag}', 'default_sheet': 'Sheet1',
+                    'cells': [['Sheet1!A1', ['int', '2']], ['Sheet1!A2', ['str', 'x']], ['Sheet1!B1', ['str', f]],
+                              ['Sheet1!B2', ['str', '=B1']]],
+                    'post_sets': [], 'names': {'top': 'Sheet1!$B$1'}, 'overwrites': [['Sheet1!A1', ['int', '3']]]})
+    return out
+
+
+def classify_rt(res, ctx, case, real, d, listed):
+    """One round trip: `real` = observable of the really restored model (or X:<Exception>),
+    `d` = the driver's answer for the state that was persisted."""
+    spec, impl, kf = d['spec'], d['impl'], d.get('kf', '')
+    res.evaluations += 1
+    if real == spec:
+        if impl != real:
+            res.drift.append({'case': case, 'what': 'the modelled restore differs from the real one (which meets the spec)',
+                              'impl_model': short(impl, 200), 'real': short(real, 200)})
+        return True
+    if kf and kf in listed and real == impl:
+        res.known.setdefault(kf, []).append(case)
+        return False
+    res.violations.append({'what': 'restored model differs from the persisted one' if not real.startswith('X:')
+                           else 'persist / construct raised ' + real[2:],
+                           'input': case, 'expected': short(spec, 400), 'got': short(real, 400)})
+    return False
+
+
+def diff_obs(a, b):
+    """First differing entry of two observable wires (for readable reports)."""
+    sa, sb = a.split('|'), b.split('|')
+    for name, x, y in zip(['cells', 'formulae', 'defined_names', 'ranges'], sa, sb):
+        ex, ey = x.split(';'), y.split(';')
+        for i in range(max(len(ex), len(ey))):
+            u = ex[i] if i < len(ex) else '<absent>'
+            v = ey[i] if i < len(ey) else '<absent>'
+            if u != v:
+                return f'{name}[{i}]: {untext_entry(u)} -> {untext_entry(v)}'
+    return None
+
+
+def untext_entry(e):
+    parts = []
+    for p in e.split('~'):
+        body = p[2:] if p.startswith('T:') else p
+        if body and all(c.isdigit() or c == '.' for c in body) and not p.startswith(('I:', 'F:')):
+            try:
+                parts.append(('"' if p.startswith('T:') else '') + ''.join(chr(int(x)) for x in body.split('.'))
+                             + ('"' if p.startswith('T:') else ''))
+                continue
+            except ValueError:
+                pass
+        parts.append(p)
+    return '~'.join(parts)
+
+
+class Strict:
+    """Block jsonpickle's import fallback for the dataclass modules: only the allow-list may resolve them."""
+    BLOCKED = ('xlcalculator.xltypes.', 'xlcalculator.tokenizer.')
+
+    def __enter__(self):
+        import jsonpickle.unpickler as up
+        self.up = up
+        self.orig = up.loadclass
+
+        def loadclass(name, classes=None):
+            r = self.orig(name, classes=classes)
+            if isinstance(name, str) and name.startswith(self.BLOCKED):
+                if classes and (name in classes or name.rsplit('.', 1)[-1] in classes):
+                    return r
+                return None
+            return r
+        up.loadclass = loadclass
+        return self
+
+    def __exit__(self, *a):
+        self.up.loadclass = self.orig
+
+
+def run_spec(ctx, res, spec, tmpdir, counter, exts_for_point, pending, listed):
+    """All four history points of one generated model.  Driver requests are queued in `pending` together
+    with the closure that classifies the answer."""
+    for p, pname in enumerate(POINTS):
+        orig = build_state(spec, p)
+        wire0 = obs_wire(orig)
+        core0, strict0 = observe(orig)
+        graph = graph_wire(orig)
+        # the reference for "every cell evaluates to the same value": the original state, compiled
+        ref = build_state(spec, p)
+        if p == 0:
+            ref.build_code()
+        ev_ref = evaluate_all(ref)
+        kinds = {v.split(':')[0] for v in ev_ref.values()}
+        for v in ev_ref.values():
+            res.count('value:' + (v.split(':')[0] + ':' + v.split(':')[1] if v[0] in 'XEN' else v.split(':')[0]))
+        res.count('point:' + pname)
+        res.count('cells', len(orig.cells))
+        res.count('formulas', len(orig.formulae))
+        res.count('names', len(orig.defined_names))
+        res.count('ranges', len(orig.ranges))
+        reals = []
+        for ext in exts_for_point(p):
+            counter[0] += 1
+            case = {'spec': spec, 'point': pname, 'ext': ext}
+            try:
+                m2, gz = round_trip(orig, ext, tmpdir, counter[0])
+            except RecursionError:
+                reals.append((case, 'X:RecursionError', None, None))
+                continue
+            except Exception as exc:  # noqa: BLE001
+                reals.append((case, 'X:' + type(exc).__name__, None, None))
+                continue
+            res.count('ext:' + ext)
+            expect_gz = ext.lower() in ('.gz', '.gzip')
+            if gz != expect_gz:
+                res.violations.append({'what': 'wrong codec for the file extension', 'input': case,
+                                       'expected': 'gzip' if expect_gz else 'plain', 'got': 'gzip' if gz else 'plain'})
+            real = obs_wire(m2)
+            core1, strict1 = observe(m2)
+            dcore = first_diff(core0, core1)
+            if dcore and real == wire0:
+                # the two renderings of the observable must not disagree about equality
+                res.drift.append({'case': case, 'what': 'harness: observe() and obs_wire() disagree', 'diff': short(dcore)})
+            dstrict = first_diff(strict0, strict1)
+            if dstrict and not dcore:
+                res.drift.append({'case': {'id': spec['id'], 'point': pname, 'ext': ext},
+                                  'what': 'beyond the statement: ' + dstrict[0],
+                                  'orig': short(dstrict[1], 120), 'restored': short(dstrict[2], 120)})
+            # evaluate every cell of the restored model
+            ev2 = evaluate_all(m2)
+            dev = first_diff(ev_ref, ev2)
+            if dev and real == wire0:
+                res.violations.append({'what': 'a cell of the restored model evaluates differently', 'input': case,
+                                       'expected': {dev[0]: dev[1]}, 'got': {dev[0]: dev[2]}})
+            reals.append((case, real, dcore, len(kinds)))
+        if obs_wire(orig) != wire0:
+            res.violations.append({'what': 'persist_to_json_file changed the model it persisted',
+                                   'input': {'spec': spec, 'point': pname}, 'expected': short(wire0), 'got': short(obs_wire(orig))})
+        line = '\t'.join(['C12', 'RT', w_text('m' + exts_for_point(p)[0]), '1', 'all', str(SAFE_DEPTH), graph])
+
+        def done(d, reals=reals, wire0=wire0, spec=spec, pname=pname, nform=len(orig.formulae)):
+            if d['spec'] != wire0:
+                res.drift.append({'case': {'id': spec['id'], 'point': pname},
+                                  'what': 'harness: the Lean observable of the walked graph differs from obs_wire',
+                                  'diff': diff_obs(d['spec'], wire0)})
+                d = dict(d, spec=wire0)
+            for case, real, dcore, nk in reals:
+                ok = classify_rt(res, ctx, case, real, d, listed)
+                if ok and nform and (nk or 0) >= 2:
+                    res.nontrivial.add(f"{spec['id']}|{pname}|{case['ext']}")
+                if not ok and res.violations and res.violations[-1].get('input') is case:
+                    res.violations[-1]['diff'] = diff_obs(d['spec'], real) if not real.startswith('X:') else real
+            if d.get('persistable') != '1' and not d.get('kf'):
+                # every state the API reaches must be Persistable in the model (reachability, tied to reality)
+                res.drift.append({'case': {'id': spec['id'], 'point': pname},
+                                  'what': 'the Lean model does not find this reachable state Persistable',
+                                  'enc': d.get('enc'), 'depth': d.get('depth')})
+            if len(res.samples) < 12:
+                res.sample({'model': spec['id'], 'point': pname, 'cells': len(wire0.split('|')[0].split(';')),
+                            'persistable': d.get('persistable'), 'depth': d.get('depth'), 'kf': d.get('kf', ''),
+                            'real_equals_spec': all(r[1] == wire0 for r in reals)})
+        pending.append((line, done))
+
+
+def run_codec(ctx, res, tmpdir, pending):
+    """Tricky file names: which opener the writer really used (magic bytes), whether the reader gets the model
+    back, against the reference rule and the Lean model."""
+    from xlcalculator import ModelCompiler, Model
+    for i, name in enumerate(CODEC_NAMES):
+        m = ModelCompiler().read_and_parse_dict({'Sheet1!A1': 1, 'Sheet1!B1': '=A1+1'})
+        base = os.path.join(tmpdir, f'codec{i}')
+        path = os.path.join(base, name)
+        os.makedirs(os.path.dirname(path), exist_ok=True)
+        real_ext = os.path.splitext(path)[-1]
+        try:
+            m.persist_to_json_file(path)
+            with open(path, 'rb') as fh:
+                gz = fh.read(2) == b'\x1f\x8b'
+            m2 = Model()
+            m2.construct_from_json_file(path, build_code=True)
+            back = obs_wire(m2) == obs_wire(m)
+            real = ('gzip' if gz else 'plain') + (',read-ok' if back else ',read-differs')
+        except Exception as exc:  # noqa: BLE001
+            real = 'X:' + type(exc).__name__
+        line = '\t'.join(['C12', 'CODEC', w_text(path)])
+
+        def done(d, name=name, real=real, real_ext=real_ext):
+            res.evaluations += 1
+            res.count('codec-name')
+            spec = d['spec'] + ',read-ok'
+            w, r = d['impl'].split(',')
+            if real != spec:
+                res.violations.append({'what': 'codec / read-back for this file name', 'input': {'file_name': name},
+                                       'expected': spec, 'got': real})
+            elif not (w == r == d['spec']):
+                res.drift.append({'what': 'modelled opener differs', 'name': name, 'impl_model': d['impl'], 'real': real})
+            if common.un_text(d['ext']) != real_ext or common.un_text(d['specext']) != real_ext:
+                res.drift.append({'what': 'os.path.splitext differs from the model / the reference', 'name': name,
+                                  'real': real_ext, 'model': common.un_text(d['ext']),
+                                  'reference': common.un_text(d['specext'])})
+            if d['spec'] == 'gzip':
+                res.nontrivial.add('codec|' + name)
+        pending.append((line, done))
+
+
+def run_strict(ctx, res, specs, tmpdir, counter, pending, listed):
+    """The allow-list alone must rebuild the dataclasses (no import fallback for their modules)."""
+    for spec in specs:
+        for p in (0, 2):
+            orig = build_state(spec, p)
+            wire0 = obs_wire(orig)
+            graph = graph_wire(orig)
+            counter[0] += 1
+            case = {'spec': spec, 'point': POINTS[p], 'ext': '.json', 'import_fallback': 'blocked for xltypes/tokenizer'}
+            try:
+                with Strict():
+                    m2, _ = round_trip(orig, '.json', tmpdir, counter[0])
+                    real = obs_wire(m2)
+            except Exception as exc:  # noqa: BLE001
+                real = 'X:' + type(exc).__name__
+            line = '\t'.join(['C12', 'RT', w_text('m.json'), '1', 'strict', str(SAFE_DEPTH), graph])
+
+            def done(d, case=case, real=real, wire0=wire0):
+                res.count('strict-allow-list')
+                d = dict(d, spec=wire0)
+                classify_rt(res, ctx, case, real, d, listed)
+                if res.violations and res.violations[-1].get('input') is case:
+                    res.violations[-1]['what'] = ('with only the allow-list to resolve xltypes/tokenizer classes: '
+                                                  + res.violations[-1]['what'])
+            pending.append((line, done))
+
+
+def run_workbooks(ctx, res, tmpdir, counter, pending, listed):
+    from xlcalculator import ModelCompiler
+    books = ['defined_names.xlsx', 'cross_sheet.xlsx', 'SUM.xlsx', 'IF.xlsx', 'DATE.xlsx', 'VLOOKUP.xlsx',
+             'logical.xlsx', 'CONCAT.xlsx']
+    if ctx.tier == 'quick' and not ctx.widen:
+        books = books[:4]
+    for b in books:
+        path = common.REPO / 'tests' / 'resources' / b
+        if not path.exists():
+            continue
+        for p in (1, 2):
+            def build():
+                mm = ModelCompiler().read_and_parse_archive(str(path), build_code=True)
+                if p == 2:
+                    evaluate_all(mm)
+                return mm
+            try:
+                orig = build()
+                ref = build()
+            except Exception as exc:  # noqa: BLE001 - loading is C11's business
+                res.notes.append(f'workbook {b} could not be loaded: {type(exc).__name__}')
+                break
+            wire0 = obs_wire(orig)
+            graph = graph_wire(orig)
+            ev_ref = evaluate_all(ref)
+            reals = []
+            for ext in ('.json', '.gz'):
+                counter[0] += 1
+                case = {'workbook': b, 'point': POINTS[p], 'ext': ext}
+                try:
+                    m2, _ = round_trip(orig, ext, tmpdir, counter[0])
+                    real = obs_wire(m2)
+                    ev2 = evaluate_all(m2)
+                    dev = first_diff(ev_ref, ev2)
+                    if dev and real == wire0:
+                        res.violations.append({'what': 'a cell of the restored workbook model evaluates differently',
+                                               'input': case, 'expected': {dev[0]: dev[1]}, 'got': {dev[0]: dev[2]}})
+                except Exception as exc:  # noqa: BLE001
+                    real = 'X:' + type(exc).__name__
+                reals.append((case, real))
+            line = '\t'.join(['C12', 'RT', w_text('m.json'), '1', 'all', str(SAFE_DEPTH), graph])
+
+            def done(d, reals=reals, wire0=wire0, b=b):
+                res.count('workbook')
+                if d['spec'] != wire0:
+                    res.drift.append({'case': b, 'what': 'harness: Lean observable of the walked graph differs',
+                                      'diff': diff_obs(d['spec'], wire0)})
+                d = dict(d, spec=wire0)
+                for case, real in reals:
+                    if classify_rt(res, ctx, case, real, d, listed):
+                        res.nontrivial.add(f"wb|{b}|{case['point']}|{case['ext']}")
+            pending.append((line, done))
+
+
+def shrink(spec, fails, budget_s=20.0):
+    """Greedy shrinking: drop overwrites, names, cells (formulas first) while the failure stays."""
+    t0 = time.time()
+    cur = spec
+    changed = True
+    while changed and time.time() - t0 < budget_s:
+        changed = False
+        cands = []
+        for i in range(len(cur['overwrites'])):
+            cands.append(dict(cur, overwrites=cur['overwrites'][:i] + cur['overwrites'][i + 1:]))
+        for n in list(cur['names']):
+            cands.append(dict(cur, names={k: v for k, v in cur['names'].items() if k != n}))
+        for i in reversed(range(len(cur['cells']))):
+            a = cur['cells'][i][0]
+            cands.append(dict(cur, cells=cur['cells'][:i] + cur['cells'][i + 1:],
+                              post_sets=[s for s in cur['post_sets'] if s[0] != a]))
+        for c in cands:
+            if time.time() - t0 > budget_s:
+                break
+            try:
+                if fails(c):
+                    cur = c
+                    changed = True
+                    break
+            except Exception:  # noqa: BLE001 - a candidate that cannot be built is not a smaller failure
+                continue
+    return cur
+
+
+def real_failure(spec, pname, ext):
+    """Does the real round trip of `spec` at this point differ from the original (or raise)?"""
+    p = POINTS.index(pname)
+    with tempfile.TemporaryDirectory() as td:
+        orig = build_state(spec, p)
+        w0 = obs_wire(orig)
+        try:
+            m2, _ = round_trip(orig, ext, td, 0)
+        except Exception:  # noqa: BLE001
+            return True
+        if obs_wire(m2) != w0:
+            return True
+        ref = build_state(spec, p)
+        if p == 0:
+            ref.build_code()
+        return evaluate_all(ref) != evaluate_all(m2)
+
+
+def run(ctx):
+    import json
+    import xlcalculator  # noqa: F401
+    res = Result()
+    res.rule = (
+        'generated acyclic models (1-3 sheets incl. names with blanks / non-ASCII; ints incl. > 2^64, floats incl. '
+        'max, denormal, -0.0, inf, nan; booleans; texts incl. non-ASCII, quotes, empty; datetimes; None; formulas '
+        'yielding numbers, texts, booleans, dates, blanks, arrays and the error values; literal and named ranges; '
+        'defined names for cells and ranges; long formulas), each persisted at four history points (uncompiled, '
+        'compiled, every cell evaluated, overwritten with set_cell_value and re-evaluated) under .json/.gz/.GZ/.gzip, '
+        'restored with build_code=True, compared deeply and re-evaluated cell by cell; plus tricky file names, '
+        'bundled workbooks, and restores with the import fallback blocked. Non-trivial = a (model, point, '
+        'extension) round trip of a model with at least one formula and two kinds of evaluated values that came '
+        'back equal, or a gzip-selecting file name')
+    listed = {e['id'] for e in ctx.known if e.get('status') == 'known'}
+    thorough = ctx.tier == 'thorough' or ctx.widen
+    pending = []
+    counter = [0]
+    rng = ctx.rng
+    with tempfile.TemporaryDirectory(prefix='c12-') as tmpdir:
+        specs = []
+        if ctx.replay:
+            v = json.loads(open(ctx.replay).read())
+            inp = v.get('input') or {}
+            if 'spec' in inp:
+                specs.append(inp['spec'])
+        else:
+            cdir = common.CORPUS / 'C12'
+            if cdir.exists():
+                for f in sorted(cdir.glob('*.json')):
+                    specs.append(json.loads(f.read_text()))
+            specs.extend(deep_specs() if thorough else deep_specs()[:1] + deep_specs()[3:4])
+            n = 640 if thorough else 22
+            for i in range(n):
+                specs.append(gen_spec(rng, i, big=(i % 8 == 7)))
+        ncorpus = len(specs)
+        for i, spec in enumerate(specs):
+            full = thorough or i < 6 or isinstance(spec['id'], str)
+
+            def exts_for_point(p, i=i, full=full):
+                if full:
+                    return EXTS
+                # rotate: two extensions per point (one plain, one gzip spelling)
+                return ['.json', EXTS[1 + (i + p) % 3]] if (i + p) % 2 == 0 else [EXTS[1 + (i + p) % 3], EXTS[1 + (i + p + 1) % 3]]
+            run_spec(ctx, res, spec, tmpdir, counter, exts_for_point, pending, listed)
+        if not ctx.replay:
+            run_codec(ctx, res, tmpdir, pending)
+            gen_only = [s for s in specs if not isinstance(s['id'], str)]
+            run_strict(ctx, res, gen_only[:(40 if thorough else 5)], tmpdir, counter, pending, listed)
+            run_workbooks(ctx, res, tmpdir, counter, pending, listed)
+        res.extra['models'] = len(specs)
+        res.extra['round_trips'] = counter[0]
+    # the Lean side, in one batch
+    resp = ctx.driver.batch([ln for ln, _ in pending])
+    for (ln, done), r in zip(pending, resp):
+        d = parse_kv(r)
+        if 'impl' not in d:
+            raise RuntimeError(f'driver: {r[:300]!r} for {ln[:200]!r}')
+        done(d)
+    # shrink the first failing generated model so that the replay is small
+    if res.violations and not ctx.replay:
+        v = res.violations[0]
+        inp = v.get('input')
+        if isinstance(inp, dict) and 'spec' in inp and 'import_fallback' not in inp and len(inp['spec']['cells']) > 2:
+            try:
+                if real_failure(inp['spec'], inp['point'], inp['ext']):
+                    small = shrink(inp['spec'], lambda s: real_failure(s, inp['point'], inp['ext']))
+                    v['input'] = dict(inp, spec=small, shrunk_from_cells=len(inp['spec']['cells']))
+            except Exception:  # noqa: BLE001 - shrinking is best effort
+                pass
+    if res.drift:
+        res.notes.append(f'{len(res.drift)} model-drift notes (differences outside the statement, or model vs code '
+                         f'where the code meets the statement)')
+    return res
